@@ -155,7 +155,7 @@ def load_prop(name):
 # known findings
 
 def load_known():
-    path = os.path.join(VERIF, 'known_findings.json')
+    path = os.environ.get('VERIF_KNOWN_FINDINGS') or os.path.join(VERIF, 'known_findings.json')
     if not os.path.exists(path):
         return []
     with open(path) as f:
@@ -342,7 +342,8 @@ def run_batch(prop_name, tier, verif_seed, n_runs, wall_budget_s, workers=None, 
                     results_bad.append(r)
                 if r.plan is not None and not r.vclass and not r.error and len(samples) < 3:
                     samples.append(prop.sample_view(r.plan, r))
-            if time.time() - t_start > wall_budget_s or len(results_bad) >= 24:
+            n_unknown = sum(1 for r in results_bad if match_known(known, prop.ID, r.vclass, r.signature) is None)
+            if time.time() - t_start > wall_budget_s or n_unknown >= 24:
                 stopped_early = True
                 for g in futs:
                     g.cancel()
